@@ -29,6 +29,7 @@ func runC20(c *hx.Ctx) {
 	authMatrix(o, c, map[string]string{"u1": "p1", "u2": ""})
 	authMatrix(o, c, nil)
 	nothingBeforeConnect(o, c)
+	runFlowC20(o, c) // r5_flow_tokens.go
 }
 
 // rawConnect builds a CONNECT by hand: a field that is present but empty cannot be produced by the library's encoder
